@@ -69,6 +69,15 @@ def api_aperture_stats(d, e, m, pos, tr):
     for n in ('sum', 'mean', 'median', 'std', 'max', 'semimajor_sigma', 'semiminor_sigma', 'fwhm', 'sum_aper_area'):
         cols.append(col(n, 'free', getattr(st, n), tol=4))
     cols.append(col('orientation', 'angle', st.orientation.to_value('deg')))
+    # apertures whose outline ends exactly on the left / bottom edge of the original frame (x or y = -0.5): still inside, same box
+    x0, y0, w0, h0 = _orig_frame(d, tr)
+    flush = [(2.0, 20.0), (30.0, 2.0), (2.0, 2.0), (w0 - 3.0, 15.0)]
+    if tr[0] == 'transpose':
+        flush = [(b, a) for a, b in flush[:3]] + [(15.0, h0 - 3.0)]
+    sf = ApertureStats(d, CircularAperture([(a + x0, b + y0) for a, b in flush], 2.5), error=e, mask=m)
+    n0 = len(cols)
+    cols += [col('flush_bbox_xmin', 'ix', sf.bbox_xmin, partner=n0 + 2), col('flush_bbox_ymin', 'iy', sf.bbox_ymin, partner=n0 + 1),
+             col('flush_bbox_xmax', 'ix', sf.bbox_xmax, partner=n0 + 4), col('flush_bbox_ymax', 'iy', sf.bbox_ymax, partner=n0 + 3), col('flush_sum', 'free', sf.sum, tol=4)]
     return cols, {}
 
 
@@ -244,7 +253,17 @@ def api_model_image(d, e, m, pos, tr):
     from photutils.datasets import make_model_image
     from photutils.psf import CircularGaussianPRF
     t = Table(); t['x_0'] = [p[0] for p in pos]; t['y_0'] = [p[1] for p in pos]; t['flux'] = [100.0, 200.0, 50.0, 80.0][:len(pos)]
-    return [], {'model_image_k': np.rint(make_model_image(d.shape, CircularGaussianPRF(fwhm=3.3), t, model_shape=(9, 9)) * 4096).astype(np.int64)}
+    # plus sources at exactly half-integer coordinates (the window rule must not depend on the parity of the integer part) and
+    # even window sizes
+    x0, y0, _, _ = _orig_frame(d, tr)
+    extra = [(20.5, 30.0), (33.0, 12.5), (41.5, 25.5), (12.5, 18.5)]
+    if tr[0] == 'transpose':
+        extra = [(b, a) for a, b in extra]
+    for k, (ex, ey) in enumerate(extra):
+        t.add_row([ex + x0, ey + y0, 60.0 + 10 * k])
+    imgs = {'model_image_k': np.rint(make_model_image(d.shape, CircularGaussianPRF(fwhm=3.3), t, model_shape=(9, 9)) * 4096).astype(np.int64),
+            'model_image_even_k': np.rint(make_model_image(d.shape, CircularGaussianPRF(fwhm=3.3), t, model_shape=(8, 8)) * 4096).astype(np.int64)}
+    return [], imgs
 
 
 APIS = {'aperture_photometry': (api_aperture_photometry, True), 'aperture_stats': (api_aperture_stats, True), 'find_peaks': (api_find_peaks, True),
